@@ -58,6 +58,26 @@ def replay(r):
             return fimo(motifs, Xt, bin_size=bin_size, eps=eps, threshold=thr, reverse_complement=rc)
         except Exception as e:
             return e
+    if r.get("fasta"):
+        import os, tempfile, shutil
+        d = tempfile.mkdtemp(prefix="c12_")
+        try:
+            names = ["chr2", "chr10", "chr1"][:len(seqs)]
+            with open(os.path.join(d, "s.fa"), "w") as f:
+                for nm, row in zip(names, seqs):
+                    f.write(">%s\n%s\n" % (nm, "".join("ACGT"[c] if c >= 0 else "N" for c in row)))
+            try:
+                rf_ = fimo(motifs, os.path.join(d, "s.fa"), bin_size=bin_size, eps=eps, threshold=thr)
+                rt_ = fimo(motifs, X, bin_size=bin_size, eps=eps, threshold=thr)
+            except Exception as e:
+                return True, "fimo raised %s: %s" % (type(e).__name__, e)
+            for a, b in zip(rf_, rt_):
+                fa = sorted((str(n_), int(s_), str(st)) for n_, s_, st in zip(a["sequence_name"], a["start"], a["strand"]))
+                ta = sorted((names[int(n_)], int(s_), str(st)) for n_, s_, st in zip(b["sequence_name"], b["start"], b["strand"]))
+                if fa != ta:
+                    return True, "FASTA scan reports %s, tensor scan of the same sequences reports %s" % (fa[:4], ta[:4])
+        finally:
+            shutil.rmtree(d, ignore_errors=True)
     if r.get("fwd"):
         try:
             cf_ = fimo(motifs, X, bin_size=bin_size, eps=eps, threshold=thr, reverse_complement=False, return_counts=True)
@@ -212,6 +232,36 @@ def worker(cfg):
                 cnt = fimo.fimo(motifs, X, reverse_complement=True, return_counts=True, **kw) if views in ("all", "views") else None
                 Xrc = X.flip(dims=(-1,))[:, [3, 2, 1, 0]]
                 res_rc = fimo.fimo(motifs, Xrc, reverse_complement=True, **kw) if views in ("all", "rc") else None
+                if views == "fasta":
+                    # the same sequences supplied as a FASTA file (records deliberately NOT in lexicographic order)
+                    from symtm import env as _env
+                    from symtm.loader import SymStr
+                    names = ["chr2", "chr10", "chr1"][:B]
+                    recs = []
+                    for b in range(B):
+                        codes = [ite(ch[b, p] == 0, ord("A"), ite(ch[b, p] == 1, ord("C"), ite(ch[b, p] == 2, ord("G"), ite(ch[b, p] == 3, ord("T"), ord("N"))))) for p in range(L)]
+                        recs.append((names[b], SymStr(codes)))
+                    _env.FASTA_REGISTRY["sym.fa"] = recs
+                    resfa = fimo.fimo(motifs, "sym.fa", reverse_complement=True, **kw)
+                    resfa1 = fimo.fimo(motifs, "sym.fa", reverse_complement=True, dim=1, **kw)
+                    for q in range(len(pw_list)):
+                        t_rows = sorted((names[int(b)], int(s_), str(st)) for b, s_, st in zip(res[q].data["sequence_name"], res[q].data["start"], res[q].data["strand"]))
+                        f_rows = sorted((str(nm), int(s_), str(st)) for nm, s_, st in zip(resfa[q].data["sequence_name"], resfa[q].data["start"], resfa[q].data["strand"]))
+                        ctx.stats.obligations += 1
+                        if t_rows == f_rows:
+                            ctx.stats.discharged += 1
+                        else:
+                            m = ctx.model() if ctx.check() == z3.sat else None
+                            add("fimo:fasta-vs-tensor", "FASTA input and tensor input describe different hit sets (e.g. hits attributed to the wrong record): %s vs %s" % (f_rows[:3], t_rows[:3]), dict(rp(m), fasta=True))
+                            return "returned"
+                    grouped = sorted((str(nm), int(s_), str(st)) for df in resfa1 for nm, s_, st in zip(df.data["sequence_name"], df.data["start"], df.data["strand"]))
+                    allf = sorted((str(nm), int(s_), str(st)) for q in range(len(pw_list)) for nm, s_, st in zip(resfa[q].data["sequence_name"], resfa[q].data["start"], resfa[q].data["strand"]))
+                    ctx.stats.obligations += 1
+                    if grouped == allf and all(len(set(df.data["sequence_name"])) <= 1 for df in resfa1):
+                        ctx.stats.discharged += 1
+                    else:
+                        add("fimo:fasta-dim1", "dim=1 grouping of a FASTA scan does not describe the same hit set", dict(rp(ctx.model() if ctx.check() == z3.sat else None), fasta=True))
+                        return "returned"
                 if views == "fwd":
                     # forward strand only: hits, counts and dim=1 must describe the '+' subset of the two-strand scan
                     resf = fimo.fimo(motifs, X, reverse_complement=False, **kw)
@@ -323,6 +373,7 @@ def configs(tier):
     cf.append(dict(kind="glue", B=1, L=3, pwms=[pw1], threshold=0.3, views="rc"))
     cf.append(dict(kind="glue", B=2, L=2, pwms=[pw1], threshold=0.3, views="views"))
     cf.append(dict(kind="glue", B=1, L=3, pwms=[pw1], threshold=0.3, views="fwd"))
+    cf.append(dict(kind="glue", B=2, L=2, pwms=[pw1], threshold=0.3, views="fasta"))
     if not q:
         cf.append(dict(kind="glue", B=1, L=4, pwms=[pw1, pw2], threshold=0.3, views="rc"))
         cf.append(dict(kind="glue", B=2, L=3, pwms=[pw2], threshold=0.4, views="all"))
@@ -338,7 +389,7 @@ def main(tier, seed):
         [c["Ls"] for c in cf if c["kind"] == "hits"], [c["ws"] for c in cf if c["kind"] == "hits"]),
         "glue": "concrete PWMs (widths 2-3), symbolic one-hot sequences with unknown characters, B <= 2, L <= 4, both strands, dim 0/1, counts, reverse-complemented input"}
     rep.assumptions = ["numba kernel executed from its Python source: uint64 scalars are unbounded non-negative integers and range() of a negative count is empty (numba reinterprets the wrapped bound as negative)",
-                       "prange iterations are executed sequentially (each motif writes only hits[k]); real thread scheduling, FASTA input and float32 rounding of the score threshold are outside the claim",
+                       "prange iterations are executed sequentially (each motif writes only hits[k]); real thread scheduling, FASTA *parsing* (pyfaidx is modelled as an in-memory record list) and float32 rounding of the score threshold are outside the claim",
                        "table extents cover every window score (C11)"]
     rep.absorb(harness.run_configs("checks.C12", "worker", cf))
     rep.witness_ok = rep.stats["returned"] > 0
